@@ -121,8 +121,10 @@ class Collector:
             except Exception:
                 pass
             return r1
-        r1['second_stage'] = 'unknown'
-        return r1       # abstraction-level model stands (complete class: independent atoms)
+        # the abstraction-level counter-model could not be confirmed on the full query (atoms that the hypotheses relate are treated as
+        # independent by the abstraction): undecided, never a violation
+        return dict(status='unknown', backend='z3-full-uf', time=r1['time'] + round(time.time() - t0, 3), second_stage='unknown',
+                    reason='counter-model of the atom abstraction not confirmed by the full query (solver: unknown)')
 
     def lia(self, oid, hyps, goal, replay=None, sample=False):
         hyps = list(hyps) + self._rcp_axioms(list(hyps) + [goal])
